@@ -655,3 +655,33 @@ def rule_c17_r4(model: Model) -> RuleResult:
                "the subscript arguments are zipped with something other than the free parameters of the class being subscripted: "
                "re-parameterising a partially bound generic leaves type variables unbound")
     return r
+
+
+def rule_c15_r4(model: Model) -> RuleResult:
+    """Tuple layout: positional values are converted by the converters of the fields they are bound to."""
+    from .pairs import Extractor
+    r = RuleResult('C15-R4', 'positional values are paired with the converters of exactly the init fields, in field order', floor=2)
+    cls = model.cls(f'{CLS}.PaneConverter')
+    for (mname, mode) in (('try_convert_tuple', 'try'), ('collect_errors_tuple', 'collect')):
+        f = cls.methods.get(mname)
+        if f is None:
+            raise AnalysisError(f"PaneConverter.{mname} not found")
+        ex = Extractor(model, cls, mode)
+        ex.run(f)
+        subs = [k for k in ex.atoms.keys() if k[0] == 'SUB']
+        r.instances += 1
+        r.analysed.add(f.qualname)
+        r.sample({mname: [f"{k[1]} <- {k[2]} when {k[3]}" for k in subs]})
+        if len(subs) != 1:
+            r.fail(f.qualname, f"{len(subs)} delegations", f.loc(), "the positional path must convert each element with exactly one field converter")
+            continue
+        k = subs[0]
+        ctx = set(k[3].split(' & ')) if k[3] else set()
+        # unchecked construction binds positional values to the init fields (the signature has only those)
+        if k[1] == 'ELEM(self.field_converters)' and k[2] == 'ELEM(VAL)' and 'TRUTHY(ELEM(self.fields).init)' in ctx:
+            r.ok()
+        else:
+            r.fail(f.qualname, f"{k[1]} <- {k[2]} when {k[3]}", ex.atoms.d[k][0],
+                   "positional values are zipped with converters of fields other than the ones they are bound to (the constructor binds them to the "
+                   "init fields only): after an init=False field every value is validated against its neighbour's type")
+    return r
